@@ -114,6 +114,10 @@ impl ArgValidation for Expressions {
 
     fn require_string_ref(&self, index: usize) -> Result<(), LintErrorPos> {
         match self.expr(index) {
+            // a whole array (`A$()`) is not a string
+            Expression::ArrayElement(_, indices, _) if indices.is_empty() => {
+                Err(LintError::ArgumentTypeMismatch.at(&self[index]))
+            }
             Expression::Variable(_, expression_type)
             | Expression::ArrayElement(_, _, expression_type)
             | Expression::Property(_, _, expression_type) => {
